@@ -11,6 +11,7 @@ CONSTANTS
   Prelude = 0
   Reads = {}
   DevShift = FALSE
+  EmitAll = FALSE
 CONSTRAINT Bounded
 VIEW View
 INVARIANT InvIndexExact
